@@ -7,7 +7,7 @@ CONSTANTS
   ValS = {"unset", "null", "v1", "v2"}
   ValT = {"unset", "v1"}
   ValU = {"unset", "v1"}
-  BadU = {"none", "undeclared"}
+  BadU = {"none", "undeclared", "wrongnull"}
   GenDepth = 8
 INVARIANT ImplRefinesReq
 CONSTRAINT GenConstraint
